@@ -15,6 +15,7 @@ Proof.
   - intros a b _ _. destruct (Qlt_le_dec a b) as [H|H]; [left; apply Qle_bool_iff, Qlt_le_weak; exact H | right; apply Qle_bool_iff; exact H].
   - intros a b c _ _ _ H1 H2. apply Qle_bool_iff. apply Qle_bool_iff in H1, H2. apply (Qle_trans _ _ _ H1 H2).
   - intros a b _ _ H1 H2. apply Qeq_bool_iff. apply Qle_bool_iff in H1, H2. apply Qle_antisym; assumption.
+  - reflexivity.
 Qed.
 
 (* ---------- sums ---------- *)
